@@ -157,6 +157,7 @@ class Job:
     def __init__(self, ci, cfg, variant, rel, out, tinfo, clos, types=None, chains=None, rels=None):
         self.ci, self.cfg, self.variant, self.rel, self.out, self.t, self.clos = ci, cfg, variant, rel, out, tinfo, clos
         self.rels = rels or {}            # tkey -> generated file of that type (relative to out)
+        self.strop: typing.Dict[str, typing.Dict[str, typing.Optional[str]]] = {}     # lang -> DSDL name -> Language.filter_id(name) of the real generator
         self.types = types or {}          # tkey -> type dump (whole case)
         self.chains = chains or {}        # tkey -> namespace chain the real C++ header opens (stropped; + the service's own namespace)
         self.rc = 0
@@ -216,7 +217,7 @@ FINDINGS: typing.Dict[str, dict] = {
         signature=r'.'),      # diagnostics of these clashes vary (allocator traits, template lookup): any first diagnostic; the trigger is by name
     'F-C06-CPP-NS-SHADOW': dict(
         trigger=lambda j: ns_shadow(j),
-        signature=r'is not a member of|does not name a type|has not been declared|is not a (class|namespace)'),
+        signature=r'is not a member of|does not name a type|is not a type|has not been declared|is not a (class|namespace)|names the constructor'),
     'F-C06-PY-MODULE-SHADOW': dict(
         trigger=lambda j: j.lang == 'py' and bool(py_shadowing_packages(j)),
         signature=r'.'),
@@ -234,7 +235,7 @@ def pod_defines(j: Job) -> typing.List[str]:
         defs: typing.Dict[str, str] = {}
         try:
             txt = open(os.path.join(j.out, j.rel), encoding='utf-8').read()
-            for m in re.finditer(r'static_assert\(\s*(NUNAVUT_SUPPORT_LANGUAGE_OPTION_\w+)\s*==\s*(\d+)', txt):
+            for m in re.finditer(r'static_assert\(\s*(NUNAVUT_SUPPORT_LANGUAGE_OPTION\w+)\s*==\s*(\d+)', txt):
                 defs[m.group(1)] = m.group(2)
         except OSError:
             pass
@@ -280,6 +281,24 @@ def verbatim_names(j: Job, names: typing.Iterable[str]) -> typing.Set[str]:
         rx = re.compile(r'(?<![A-Za-z0-9_])' + re.escape(n) + r'(?![A-Za-z0-9_])')
         if any(rx.search(t) for t in texts):
             out.add(n)
+    return out
+
+
+def strop_folded(j: Job) -> typing.List[typing.Tuple[str, str, str]]:
+    """THE DOCUMENTED EXCLUSION of the property: two distinct attribute names of one section (fields and constants of one generated
+    struct/class) that the real generator's one-way stropping maps to the same identifier, in the header's type or a dependency"""
+    tbl = j.strop.get(j.lang) or {}
+    out = []
+    for t in j.clos:
+        for sec in t.get('section_names', []):
+            seen: typing.Dict[str, str] = {}
+            for n in sec:
+                s_ = tbl.get(n)
+                if s_ is None:
+                    continue
+                if s_ in seen and seen[s_] != n:
+                    out.append((tkey(t), seen[s_], n))
+                seen.setdefault(s_, n)
     return out
 
 
@@ -440,6 +459,7 @@ def make_jobs(ci: int, res: dict, cfgs: typing.List[dict]) -> typing.List[Job]:
             clos = closure(types, k) if k else list(types.values())
             for variant in (['c11', 'cxx14'] if cfg['lang'] == 'c' else ['own']):
                 jobs.append(Job(ci, cfg, variant, rel, r['out'], types.get(k) if k else None, clos, types, chains, rels))
+                jobs[-1].strop = res.get('strop') or {}
     return jobs
 
 
@@ -679,6 +699,15 @@ def judge(j: Job, builder: Builder, live: typing.Set[str], stats: dict) -> typin
         for f in explained_by:
             stats[f] = stats.get(f, 0) + 1
         return None
+    # the property's own exclusion (not a finding): names folded onto one identifier by the documented one-way stropping
+    folded = strop_folded(j)
+    if folded:
+        fe = first_error(out)
+        idents = {(j.strop.get(j.lang) or {}).get(a) for _, a, _ in folded}
+        if re.search(r'duplicate member|redeclaration of|redefinition of|conflicting declaration|redefined|conflicts with a previous declaration', fe) \
+                and any(i and i in fe for i in idents):
+            stats['EXCLUDED-STROP-FOLD'] = stats.get('EXCLUDED-STROP-FOLD', 0) + 1
+            return None
     return {'kind': 'diagnostic', 'cfg': j.cfg, 'config': cfg_key(j.cfg), 'variant': j.variant, 'header': j.rel,
             'type': tkey(j.t) if j.t else None, 'source': j.t['source'] if j.t else None, 'command': ' '.join(j.cmd),
             'first_error': first_error(out), 'compiler_output': out[-3000:], 'findings_considered': applicable, 'case_index': j.ci}
@@ -764,7 +793,7 @@ def main(chk: core.Check, replay: typing.Optional[str] = None) -> int:
         cases = [doc['case']] if 'case' in doc else dg.corpus()
     else:
         n_random = 4 if quick else 24
-        cases = dg.corpus() + [gen.case(chk.rng.choice([5, 8, 8, 10])) for _ in range(n_random)]
+        cases = dg.corpus() + dg.witness_corpus() + [gen.case(chk.rng.choice([5, 8, 8, 10])) for _ in range(n_random)]
     configs = all_configs()
     if 'F-C06-PY-POD' in live:
         configs = [c for c in configs if not (c['lang'] == 'py' and c['pod'])]     # probed by the witness only
@@ -815,7 +844,7 @@ def main(chk: core.Check, replay: typing.Optional[str] = None) -> int:
                 requests.append(model_lines(r, cfg, 'F-C06-CPP-VARIANT' in live))
                 req_index.append((ci, cfg))
         ccfgs = configs
-        if quick and ci >= 2:
+        if quick and ci >= 2 + len(dg.witness_corpus()):
             keep_pod = {'c++14', chk.rng.choice(CPP_STDS[1:])}
             ccfgs = [c for c in configs if not (c['lang'] == 'cpp' and c['pod'] and c['std'] not in keep_pod)]
         jobs += make_jobs(ci, r, ccfgs)
